@@ -780,6 +780,36 @@ func (w World) Generate(subseed uint64, o sim.Options) *sim.Result {
 		r.apply(&r.steps[len(r.steps)-1])
 	}
 	nsteps := 10 + rng.Intn(70)
+	// swarm: a large field (many full tables) in some runs - several
+	// balancing decisions only differ when the player total sits near a
+	// multiple of the table capacity with ten or so tables
+	if rng.Chance(0.12) {
+		tablesWanted := 4 + rng.Intn(9)
+		n := tablesWanted*cfg.Max - rng.Intn(3)
+		if n > 200 {
+			n = 200
+		}
+		bust := rng.Chance(0.6)
+		if bust {
+			n = tablesWanted * cfg.Max // every table full ...
+			if n > 200 {
+				n = (200 / cfg.Max) * cfg.Max
+			}
+		}
+		do(sim.Step{Actor: "registrar", Op: "add", Args: []int64{int64(n)}})
+		do(sim.Step{Actor: "director", Op: "status", Args: []int64{1}})
+		r.res.Count("probe.large-field", 1)
+		if live := r.liveTables(); bust && len(live) > 1 {
+			// ... then one table busts down to a single player: the total
+			// sits one above a multiple of the capacity
+			id := live[rng.Intn(len(live))]
+			do(sim.Step{Actor: "table", Op: "sync", SArgs: []string{id}, Args: []int64{100, int64(rng.Uint64() >> 1)}})
+			r.res.Count("probe.table-busted-to-one-player", 1)
+			if rng.Chance(0.7) {
+				nsteps = rng.Intn(5) // settle (almost) from here
+			}
+		}
+	}
 	// swarm: registration style and timing
 	bigBatch := rng.Chance(0.4)
 	startAt := rng.Intn(8)
